@@ -67,8 +67,18 @@ func genHardString(t *rapid.T, label string) string {
 	if !utf8.ValidString(s) {
 		return "x"
 	}
+	if uni(t, 8, label+"Lookalike") == 0 {
+		// plain text that looks like an escape sequence (a backslash is a character like any other:
+		// validators that scan for "\\u" without tracking escaped backslashes, un-escapers run twice)
+		chunk := escapeLookalikes[uni(t, len(escapeLookalikes), label+"LookalikeV")]
+		rs := []rune(s)
+		p := uni(t, len(rs)+1, label+"LookalikePos")
+		s = string(rs[:p]) + chunk + string(rs[p:])
+	}
 	return s
 }
+
+var escapeLookalikes = []string{`\ud800`, `\udfff`, `\ud83d\ude00`, `\uD800x`, `\u0000`, `\u00e9`, `\u12`, `\x41`, `\n`, `\"`, `\'`, "\\`", `&#39;`, `%27`, `\u{1F600}`, `\U0001F600`, `\\ud800`, `C:\users\udd00\x`, `\`, `\\`, `\ufffd`, `\udc00\ud800`}
 
 // escapeJSONString spells s as the body of a JSON string choosing randomly
 // among the legal spellings of each character. delim is the character of the
